@@ -32,6 +32,8 @@ type Profile struct {
 	CPs []string
 	// FinalQuiesce: run fair rounds at the end
 	FinalQuiesce int
+	// LagMax: the manager's cached client may be up to LagMax commits stale
+	LagMax int
 	// ForgeControl lets the adversary create objects whose controller reference names a PKO revision
 	ForgeControl bool
 }
@@ -40,7 +42,7 @@ var DefaultWeights = map[string]int{
 	"reconcile": 30, "round": 3, "workload": 10, "gc": 3,
 	"adv-create": 3, "adv-reown": 3, "adv-relabel": 3, "adv-edit": 3, "adv-delete": 2, "adv-recreate": 2, "adv-finalizer": 2,
 	"user-next-revision": 3, "user-pause": 2, "user-unpause": 2, "user-archive": 2, "user-delete": 1, "restart": 1,
-	"fault": 0, "adv-interpose": 0,
+	"fault": 0, "adv-interpose": 0, "user-touch-spec": 0,
 }
 
 type ident struct {
@@ -527,6 +529,21 @@ func (g *Rand) Step() {
 					}
 				}
 			},
+		})
+	case "user-touch-spec":
+		// a spec change that bumps the generation without changing the rollout (immutable fields stay)
+		sets := g.existingSets()
+		if len(sets) == 0 {
+			return
+		}
+		s := pickS(r, sets)
+		e.Mutate("user", false, PKO(g.SetKind), g.SetNS, s, "bump successDelaySeconds? no: toggle lifecycle Active (no-op) / relabel", func(u *unstructured.Unstructured) {
+			l := u.GetLabels()
+			if l == nil {
+				l = map[string]string{}
+			}
+			l["example.com/touched"] = fmt.Sprint(r.Intn(100))
+			u.SetLabels(l)
 		})
 	case "user-next-revision":
 		if g.revCount < g.P.MaxRevisions {
